@@ -426,6 +426,7 @@ async fn main(plan: Plan) -> Outcome {
     let mut hist = Vec::new();
     let mut pages_total = 0u64;
     let mut faults_total = 0u64;
+    let mut manual_total = 0u64;
     for qi in 0..plan.queries {
         let m = (qi as u64 + 1) * 16;
         // Some queries run with a (short) client-side request timeout; slow pages
@@ -447,8 +448,9 @@ async fn main(plan: Plan) -> Outcome {
             s.as_any().downcast_mut::<C07Script>().unwrap().plans.insert(m, pp.clone());
             w.script = Some(s);
         }
-        // 0 eager, 1 slow consumer, 2 early drop
-        let consumer = tape::weighted("c07:consumer", &[3, 1, 1]);
+        // 0 eager, 1 slow consumer, 2 early drop, 3 manual paging: the caller fetches page
+        // by page (query_single_page / execute_single_page) and hands the paging state back.
+        let consumer = tape::weighted("c07:consumer", &[3, 1, 1, 2]);
         // A consumer may also stall once for longer than the request timeout.
         let stall_at = if tape::chance("c07:stall", 1, 3) && pp.total_rows > 0 {
             Some((tape::choose("c07:stall_row", pp.total_rows as u64) as usize, req_timeout.unwrap_or(SEC) * 2 + 100 * MS))
@@ -461,11 +463,72 @@ async fn main(plan: Plan) -> Outcome {
             usize::MAX
         };
         let use_prepared = prepared.is_some() && tape::chance("c07:prepared", 1, 2);
+        manual_total += (consumer == 3) as u64;
         let mut seen: Vec<i64> = Vec::new();
         let mut error: Option<String> = None;
         let mut ended = false;
         let t_start = world::now_ns();
         let run = async {
+            if consumer == 3 {
+                use scylla::response::{PagingState, PagingStateResponse};
+                let mut state = PagingState::start();
+                loop {
+                    let page = if use_prepared {
+                        let mut p = prepared.clone().unwrap();
+                        p.set_is_idempotent(true);
+                        p.set_request_timeout(req_timeout.map(Duration::from_nanos));
+                        session.execute_single_page(&p, (qi as i64, m as i64), state).await
+                    } else {
+                        let mut st = Statement::new(format!("{PAGED_Q}{m}"));
+                        st.set_is_idempotent(true);
+                        st.set_request_timeout(req_timeout.map(Duration::from_nanos));
+                        session.query_single_page(st, (), state).await
+                    };
+                    let (qr, next) = match page {
+                        Ok(x) => x,
+                        Err(e) => {
+                            error = Some(format!("{e}").chars().take(100).collect());
+                            return;
+                        }
+                    };
+                    let rows = match qr.into_rows_result() {
+                        Ok(r) => r,
+                        Err(e) => {
+                            error = Some(format!("not rows: {e}"));
+                            return;
+                        }
+                    };
+                    match rows.rows::<(i64, String)>() {
+                        Ok(it) => {
+                            for r in it {
+                                match r {
+                                    Ok((i, _t)) => seen.push(i),
+                                    Err(e) => {
+                                        error = Some(format!("row: {e}"));
+                                        return;
+                                    }
+                                }
+                            }
+                        }
+                        Err(e) => {
+                            error = Some(format!("type check: {e}"));
+                            return;
+                        }
+                    }
+                    match next {
+                        PagingStateResponse::HasMorePages { state: s } => state = s,
+                        PagingStateResponse::NoMorePages => {
+                            ended = true;
+                            return;
+                        }
+                    }
+                    if let Some((row, len)) = stall_at {
+                        if seen.len() > row && seen.len() <= row + 3 {
+                            world::sleep_ns(len).await;
+                        }
+                    }
+                }
+            }
             let pager = if use_prepared {
                 let mut p = prepared.clone().unwrap();
                 p.set_is_idempotent(true);
@@ -674,6 +737,7 @@ async fn main(plan: Plan) -> Outcome {
     }
     out.nontrivial = pages_total > plan.queries as u64;
     out.count("page_requests", pages_total);
+    out.count("manually_paged_queries", manual_total);
     out.count("page_faults", faults_total);
     out.sample = json!({"nodes": plan.nodes, "queries": plan.queries, "system_page_rows": plan.system_page_rows, "histories": hist});
     out
